@@ -239,6 +239,27 @@ func genC11(cfg Config, emit Emit) error {
 		emit("diddecode", []string{hexTok(b)}, "bytes", len(b) > 0)
 		emit("sigframe", []string{hexTok(b)}, "bytes", len(b) > 0)
 	}
+	// (i') arbitrary header values on a well-formed request (the C20 fixture's handler and model)
+	pieces := []string{";", "q", "=", ",", " ", "*/*", carCT, "\t", "0", "/", "*", "0.5", "text/html", "\x00", "é"}
+	nh := 400
+	if cfg.Thorough() {
+		nh = 8000
+	}
+	for _, e := range c20Elems {
+		emit("handle", []string{hexTok([]byte(carCT)), hexTok([]byte(e)), "valid"}, "headers/accept", true)
+		emit("handle", []string{hexTok([]byte(e)), hexTok([]byte(carCT)), "valid"}, "headers/content-type", true)
+	}
+	for i := 0; i < nh; i++ {
+		var sb strings.Builder
+		for k := 1 + cfg.Rng.Intn(5); k > 0; k-- {
+			sb.WriteString(pieces[cfg.Rng.Intn(len(pieces))])
+		}
+		if i%4 == 0 {
+			emit("handle", []string{hexTok([]byte(sb.String())), hexTok([]byte(carCT)), "valid"}, "headers/content-type", true)
+		} else {
+			emit("handle", []string{hexTok([]byte(carCT)), hexTok([]byte(sb.String())), []string{"valid", "garbage"}[i%2]}, "headers/accept", true)
+		}
+	}
 	// (ii) structured malformation at every position, singly and in pairs
 	n := 1500
 	if cfg.Thorough() {
